@@ -18,6 +18,6 @@ CHECK = dict(
     assumptions=['SimDB/SimFS stand in for LevelDB and the file system', 'process exit = asyncio.run() '
                  'epilogue (cancel leftovers, drain executor threads)',
                  'a SIGTERM before the handler is installed kills the process (default disposition)'],
-    required_probes=['sigterm.phase.advance', 'sigterm.phase.flush_locked',
+    required_probes=['sigterm.phase.advance', 'sigterm.phase.advance_nonconnecting', 'sigterm.phase.flush_locked',
                      'sigterm.phase.backup', 'sigterm.phase.idle', 'sigterm.phase.fetch'],
 )
